@@ -26,7 +26,8 @@ func init() {
 			"R7 every type reachable from the pattern roots in GOROOT's go/ast has a kind handled by compileGeneric or is a comparable scalar; R8 the statement-container switch covers exactly the go/ast structs with a []ast.Stmt field, with the right field name; " +
 			"R9 splitPatch sends '-' lines to the minus version only, '+' lines to the plus version only and all others to both, stripping exactly the marker byte. " +
 			"R11 a repeated metavariable compares literally (= C02-R3/R7): the matcher captured at the first occurrence is compiled from the captured code by a fresh compiler with no metavariable table; R12 every matcher hands its sub-matchers projections of its own candidate (= C03-R9). " +
-			"NOT decided: correctness of reflect, go/parser and astutil.Apply; semantic adequacy of the pattern parse (pgo); interaction of overlapping matches; which text ends up in the output (C03/C05).",
+			"NOT decided: correctness of reflect, go/parser and astutil.Apply; semantic adequacy of the pattern parse (pgo); interaction of overlapping matches; which text ends up in the output (C03/C05)." +
+			" After F15: the recorded matches are replaced last-recorded first (innermost first).",
 		Trusted:     commonTrusted,
 		Assumptions: commonAssumptions,
 	})
